@@ -767,6 +767,21 @@ func runCase(c Case) (res pbt.Result) {
 	for _, d := range c.Defs {
 		res.Class("def-" + d.Kind)
 	}
+	if len(c.Defs) == 0 {
+		res.Class("def-none")
+	}
+	if extendableAccept(&c.Pattern) {
+		res.Class("pat-complete-match-extendable")
+	}
+	if c.Pattern.nullable() {
+		res.Class("pat-nullable")
+	}
+	if withinCanBind(c) {
+		res.Class("within-can-bind")
+	}
+	if interleaved(c) {
+		res.Class("partitions-interleaved")
+	}
 	switch {
 	case totalMatches == 0:
 		res.Class("matches=0")
@@ -906,7 +921,7 @@ func checkPartition(c Case, p int, rows []prow, infos []startInfo, m *matcher, e
 			}
 			cands = [][]string{e.labels}
 		} else {
-			for _, k := range keys(infos[want].longest) {
+			for _, k := range allKeys(infos[want].longest) {
 				l := strings.Split(k, ",")
 				if l[len(l)-1] == e.last {
 					cands = append(cands, l)
@@ -960,12 +975,18 @@ func idAt(rows []prow, i int) int {
 	return -1
 }
 
-func keys(m map[string]bool) []string {
+func allKeys(m map[string]bool) []string {
 	out := make([]string, 0, len(m))
 	for k := range m {
 		out = append(out, k)
 	}
 	sort.Strings(out)
+	return out
+}
+
+// keys: at most six, for messages
+func keys(m map[string]bool) []string {
+	out := allKeys(m)
 	if len(out) > 6 {
 		out = append(out[:6], "...")
 	}
